@@ -27,6 +27,8 @@ TDiag == /\ Step("Diags") /\ Keep /\ UNCHANGED <<verdicts, ref>>
          \* completely: a line that matches no template has lost part of its text
          /\ (\E i \in 1..Len(Ev.diags) : Ev.diags[i].code = "") => Report2("diagnostic-matches-no-message", "")
          /\ (Ev.lexeme # "" /\ \E i \in 1..Len(Ev.diags) : Ev.diags[i].code = Ev.code /\ ~Ev.diags[i].haslexeme) => Report2("wrong-argument", "")
+         \* an undeclared name at a using position: some ERROR names it
+         /\ (Ev.mustquote /\ ~\E i \in 1..Len(Ev.diags) : Ev.diags[i].sev = "ERROR" /\ Ev.diags[i].quotes) => Report2("offender-not-quoted", "")
 (* C20: -w c / -i c change only whether class-c warnings are printed *)
 Filter(ds, c) == SelectSeq(ds, LAMBDA d : ~(d.sev = "WARNING" /\ d.cls = c))
 TRef == Step("Plain") /\ ref' = Ev.diags /\ Keep /\ UNCHANGED verdicts
